@@ -178,7 +178,8 @@ func (r *RefMatcher) Find(line []byte) []int {
 }
 
 // Reference evaluates every line of every input alone, sequentially.
-func Reference(w *Workload) ([]LineTruth, error) {
+// dir is where file inputs will be materialised ({src} is the path the pipeline reports).
+func Reference(w *Workload, dir string) ([]LineTruth, error) {
 	rm, err := NewRefMatcher(w.Matcher)
 	if err != nil {
 		return nil, err
@@ -196,12 +197,13 @@ func Reference(w *Workload) ([]LineTruth, error) {
 		ign = append(ign, ck)
 	}
 	var out []LineTruth
-	for _, in := range w.Inputs {
+	for ii, in := range w.Inputs {
+		srcName := SourceName(w, dir, ii)
 		for n, line := range ref.SplitLines(in.Data) {
 			lt := LineTruth{Source: in.Name, LineNo: uint64(n + 1), Text: line, Class: 'U'}
 			idx := rm.Find(line)
 			if len(idx) > 0 {
-				ctx := &Ctx{Line: string(line), Idx: idx, Names: rm.names, Src: in.Name, LineNo: uint64(n + 1)}
+				ctx := &Ctx{Line: string(line), Idx: idx, Names: rm.names, Src: srcName, LineNo: uint64(n + 1)}
 				lt.Idx = idx
 				ignored := false
 				for _, e := range ign {
@@ -672,7 +674,14 @@ func JudgeC01(w *Workload, dir string, truth []LineTruth, obs *Observed) []Findi
 				if pos >= len(truth) {
 					break
 				}
-				if truth[pos].Class != w.Classes[i][n] {
+				wantC := w.Classes[i][n]
+				switch wantC {
+				case 'E':
+					wantC = 'I' // empty key counts as ignored
+				case 'W':
+					wantC = 'M' // whitespace-only ignore result is not truthy
+				}
+				if truth[pos].Class != wantC {
 					add("class-by-construction", "input %s line %d constructed as class %c, sequential evaluation says %c: %s",
 						w.Inputs[i].Name, n+1, w.Classes[i][n], truth[pos].Class, run.Q(string(truth[pos].Text)))
 					return out
@@ -745,6 +754,9 @@ func JudgeC02(w *Workload, dir string, truth []LineTruth, obs *Observed) []Findi
 				add("wrong-capture", "%s line %d group %d: %s, leftmost match of the reference matcher gives %s (line %s)", m.Live.Source, m.Live.LineNumber, g, run.Q(gv), run.Q(rv), run.Q(string(t.Text)))
 				break
 			}
+		}
+		if t.Class == 'M' && m.Live.Extracted != t.Key {
+			add("wrong-extracted", "%s line %d: extracted %s, the expression over the reference captures gives %s (expression %s, line %s)", m.Live.Source, m.Live.LineNumber, run.Q(m.Live.Extracted), run.Q(t.Key), run.Q(w.Extract), run.Q(string(t.Text)))
 		}
 		for g := 0; g < ng; g++ {
 			a, b := m.Live.Indices[2*g], m.Live.Indices[2*g+1]
